@@ -96,6 +96,29 @@ func (g *gen) genParts(root *gorm.DB) []part {
 				q = "c1, COALESCE(" + col + ", ?) AS z"
 			}
 			parts = append(parts, part{kind: "select", desc: fmt.Sprintf("Select(%q, %#v)", q, l.val), leaves: []*leaf{l}, apply: func(db *gorm.DB) *gorm.DB { return db.Select(q, l.val) }})
+		case k == 7 && g.r.Bool():
+			// association join whose ON conditions come from a handle with one to three conditions
+			n := g.r.Range(1, 3)
+			cs := make([]cond, n)
+			var ls []*leaf
+			ds := make([]string, n)
+			for i := range cs {
+				cs[i] = g.simpleCond(root, 1)
+				ls = append(ls, cs[i].leaves...)
+				ds[i] = "Where(" + cs[i].desc + ")"
+			}
+			inner := g.r.Bool()
+			name := map[bool]string{false: "Joins", true: "InnerJoins"}[inner]
+			parts = append(parts, part{kind: "joins", desc: name + "(\"Parent\", db." + strings.Join(ds, ".") + ")", leaves: ls, apply: func(db *gorm.DB) *gorm.DB {
+				h := root.Session(&gorm.Session{})
+				for _, c := range cs {
+					h = h.Where(c.query, c.args...)
+				}
+				if inner {
+					return db.InnerJoins("Parent", h)
+				}
+				return db.Joins("Parent", h)
+			}})
 		case k == 7:
 			col := g.kcol()
 			l := g.newLeaf(col, "")
@@ -105,7 +128,14 @@ func (g *gen) genParts(root *gorm.DB) []part {
 			parts = append(parts, part{kind: "joins", desc: fmt.Sprintf("Joins(%q, ...)", q), leaves: append([]*leaf{l}, ls...), apply: func(db *gorm.DB) *gorm.DB { return db.Joins(q, l.val, sl) }})
 		case k == 8:
 			c := g.simpleCond(root, 1)
-			parts = append(parts, part{kind: "having", desc: "Group(c2).Having(" + c.desc + ")", leaves: c.leaves, apply: func(db *gorm.DB) *gorm.DB { return db.Group("c2").Having(c.query, c.args...) }})
+			switch g.r.Intn(3) {
+			case 0:
+				parts = append(parts, part{kind: "having", desc: "Group(c2).Having(" + c.desc + ")", leaves: c.leaves, apply: func(db *gorm.DB) *gorm.DB { return db.Group("c2").Having(c.query, c.args...) }})
+			case 1:
+				parts = append(parts, part{kind: "having", desc: "Having(" + c.desc + ").Group(c2)", leaves: c.leaves, apply: func(db *gorm.DB) *gorm.DB { return db.Having(c.query, c.args...).Group("c2") }})
+			default:
+				parts = append(parts, part{kind: "having", desc: "Group(c2).Having(" + c.desc + ").Group(c3)", leaves: c.leaves, apply: func(db *gorm.DB) *gorm.DB { return db.Group("c2").Having(c.query, c.args...).Group("c3") }})
+			}
 		case k == 9:
 			col := g.kcol()
 			sl, ls := g.sliceLeaves(col, g.r.Range(1, 4))
@@ -545,7 +575,7 @@ func realPass(c *core.Ctx) {
 var Engine = &core.Engine{
 	ID:    "C01",
 	Level: "exploration",
-	Rule: "seeded chains of 1..5 parts drawn from Where/Not/Or (raw '?', @named via map/sql.Named, map, struct, clause.* trees, grouped builders, chain and Raw sub-queries, tuple IN, empty slices), Select(expr,args), Joins(raw,args), Group+Having, Order/Clauses(OrderBy expr), Table(expr, sub-query), Clauses(Where/Locking), Limit/Offset x 25 finishers (reads, updates, deletes, creates from struct/slice/map/[]map, upserts, Save, Raw/Exec) x {'?', '$n'} dialectors in DryRun; " +
+	Rule: "seeded chains of 1..5 parts drawn from Where/Not/Or (raw '?', @named via map/sql.Named, map, struct, clause.* trees, grouped builders, chain and Raw sub-queries, tuple IN, empty slices), Select(expr,args), Joins(raw,args), association Joins/InnerJoins with a handle of 1..3 ON conditions, Group+Having in every call order, Order/Clauses(OrderBy expr), Table(expr, sub-query), Clauses(Where/Locking), Limit/Offset x 25 finishers (reads, updates, deletes, creates from struct/slice/map/[]map, upserts, Save, Raw/Exec) x {'?', '$n'} dialectors in DryRun; " +
 		"every leaf value (string with hostile tail, ints, floats, bytes, time, pointers, Null*, driver.Valuer, gorm.Valuer, gorm.Expr) carries a serial and its column; distinct = (finisher, part kinds, dialect, size class); non-trivial = at least 2 bound values aligned and accounted for; every 4th case also runs a hostile-value round trip on SQLite behind the recording driver",
 	Assumptions: []string{
 		"raw SQL templates, column and table names are developer input and contain no literals: any string/numeric literal or comment token in the final SQL is a spliced value",
